@@ -88,8 +88,8 @@ func runC03(c *Ctx) {
 		return
 	}
 	admit := func(in ssa.Instruction) bool {
-		ret, ok := in.(*ssa.Return)
-		return ok && len(ret.Results) == 1 && core.IsNilConst(core.ResolveLocalLoad(ret.Results[0]))
+		ret, ok := core.AsReturn(in)
+		return ok && len(ret.Results) == 1 && core.IsNilConst(core.ResolveLocalLoad(core.Res(ret, 0)))
 	}
 	gNotBlocked, n1 := core.CondEdges(hb, func(at core.Atom) (bool, bool) {
 		if at.Op == token.ILLEGAL && core.IsCallResult(at.Base, 0, "(*dnsforward.Server).IsBlockedClient") {
@@ -184,11 +184,11 @@ func c03PreBlocked(c *Ctx) {
 		return
 	}
 	isReply := func(in ssa.Instruction) (reply, known bool) {
-		ret, ok := in.(*ssa.Return)
+		ret, ok := core.AsReturn(in)
 		if !ok || len(ret.Results) != 1 {
 			return false, false
 		}
-		leaves := core.FlattenPhi(core.ResolveLocalLoad(ret.Results[0]))
+		leaves := core.FlattenPhi(core.ResolveLocalLoad(core.Res(ret, 0)))
 		rep, non := 0, 0
 		for _, l := range leaves {
 			if core.TypeKey(l.Type()) == "*github.com/AdguardTeam/dnsproxy/proxy.BeforeRequestError" {
@@ -237,7 +237,7 @@ func c03PreBlocked(c *Ctx) {
 	var trR []*ssa.BasicBlock
 	if len(starts) > 0 {
 		foundReply, trR, _ = core.Reach(core.Query{From: starts, Target: func(in ssa.Instruction) bool {
-			if _, isRet := in.(*ssa.Return); !isRet {
+			if _, isRet := core.AsReturn(in); !isRet {
 				return false
 			}
 			rep, known := isReply(in)
@@ -481,7 +481,7 @@ func c03Modes(c *Ctx) {
 					}
 					r.Fail("C03-D4", "IsBlockedClient:blocked-not-constant", p.InstrPos(at), "the blocked result is computed by an unrecognised expression")
 				}
-				walk(x.Results[0], in, 0)
+				walk(core.Res(x, 0), in, 0)
 			}
 		}
 	}
@@ -633,7 +633,7 @@ func c03Entries(c *Ctx) {
 			if in.Block() == hdr {
 				return true
 			}
-			if ret, ok := in.(*ssa.Return); ok && len(ret.Results) == 1 && core.IsNilConst(ret.Results[0]) {
+			if ret, ok := core.AsReturn(in); ok && len(ret.Results) == 1 && core.IsNilConst(core.Res(ret, 0)) {
 				return true
 			}
 			return false
@@ -706,7 +706,7 @@ func c03Entries(c *Ctx) {
 				if s == h || back {
 					continue
 				}
-				if _, isRet := s.Instrs[len(s.Instrs)-1].(*ssa.Return); !isRet {
+				if _, isRet := core.AsReturn(s.Instrs[len(s.Instrs)-1]); !isRet {
 					okScan, why = false, "the scan of the networks can stop before all networks were tested without returning a match ("+p.InstrPos(s.Instrs[0])+")"
 				}
 			}
